@@ -2,9 +2,10 @@ package rules
 
 import (
 	"fmt"
-	"go/constant"
 	"go/token"
+	"gofasta-verif/eval"
 	"sort"
+	"syscall"
 
 	"golang.org/x/tools/go/ssa"
 
@@ -35,6 +36,9 @@ func C19(c *core.Ctx) {
 	writers := map[*ssa.Function]bool{}
 	for _, s := range sinks {
 		tf := topFunc(s.fn)
+		if fnKey(tf) == "cmd."+currentName(c, "cmd", "Execute") {
+			continue // printing the failure itself; Execute exits non-zero whatever happens to that message (B2/cmd.Execute)
+		}
 		perFn[tf]++
 		writers[tf] = true
 		key := fmt.Sprintf("B1/%s/write#%d", fnKey(tf), perFn[tf])
@@ -127,8 +131,15 @@ func C19(c *core.Ctx) {
 	c.Sample(map[string]interface{}{"rule": "B1", "sinks": nsinks, "writer_functions": len(writers)})
 }
 
+// indelsOutOfScope: only C12 states that the deprecated `sam indels` is out of scope; every other property
+// quantifies over every command.
+var indelsOutOfScope bool
+
 func isDeprecatedIndels(f *ssa.Function) bool {
 	if f == nil {
+		return false
+	}
+	if !indelsOutOfScope {
 		return false
 	}
 	pos := f.Prog.Fset.Position(f.Pos())
@@ -139,51 +150,111 @@ func hasSuffix(s, suf string) bool { return len(s) >= len(suf) && s[len(s)-len(s
 
 // checkExecuteExits: cmd.Execute tests the root command's error and calls os.Exit with a non-zero constant.
 func checkExecuteExits(c *core.Ctx, key string) {
-	f := c.SSAFunc("cmd", "Execute")
-	if f == nil {
+	fn := c.LookupFunc("cmd", "Execute")
+	if fn == nil {
 		c.Und(key, token.NoPos, "UNRESOLVED anchor cmd.Execute")
 		return
 	}
-	ok := false
-	detail := "no call of (*cobra.Command).Execute whose error guards os.Exit(non-zero)"
-	for _, b := range f.Blocks {
-		for _, ins := range b.Instrs {
-			call, isCall := ins.(*ssa.Call)
-			if !isCall {
-				continue
+	// cmd.Execute is interpreted twice: the root command's Execute returns an error / returns nil. os.Exit is
+	// modelled (it records the status and ends the run); what Execute prints is accepted and ignored.
+	run := func(failure eval.Value) (exited bool, status int64, err error) {
+		fail := failure != nil
+		ev := newEval(c)
+		ev.Extern["(*github.com/spf13/cobra.Command).Execute"] = func(ev *eval.Evaluator, pos token.Pos, recv eval.Value, a []eval.Value) eval.Value {
+			if fail {
+				return failure
 			}
-			cal := call.Common().StaticCallee()
-			if cal == nil || cal.Name() != "Execute" {
-				continue
+			return eval.Nil{}
+		}
+		ev.Extern["(*github.com/spf13/cobra.Command).ExecuteC"] = func(ev *eval.Evaluator, pos token.Pos, recv eval.Value, a []eval.Value) eval.Value {
+			if fail {
+				return eval.Tuple{eval.Nil{}, failure}
 			}
-			// err != nil controlling a block that calls os.Exit(k), k != 0
-			for _, r := range *call.Referrers() {
-				bo, isB := r.(*ssa.BinOp)
-				if !isB || bo.Op != token.NEQ {
-					continue
+			return eval.Tuple{eval.Nil{}, eval.Nil{}}
+		}
+		noop := func(ev *eval.Evaluator, pos token.Pos, recv eval.Value, a []eval.Value) eval.Value { return nil }
+		for _, name := range []string{"os/signal.Ignore", "os/signal.Notify", "os/signal.Reset"} {
+			ev.Extern[name] = noop
+		}
+		// errors.Is: the error is the target itself (the models do not wrap)
+		ev.Extern["errors.Is"] = func(ev *eval.Evaluator, pos token.Pos, recv eval.Value, a []eval.Value) eval.Value {
+			x, ok1 := a[0].(eval.ErrVal)
+			if !ok1 {
+				return false
+			}
+			if y, ok := a[1].(eval.ErrVal); ok {
+				return eval.Show(x.Msg) == eval.Show(y.Msg)
+			}
+			// a syscall.Errno constant as target
+			if y, ok := a[1].(eval.Lin); ok && y.IsConst() {
+				if xc, ok := x.Concrete.(eval.Lin); ok && xc.IsConst() {
+					return xc.C == y.C
 				}
-				for _, r2 := range *bo.Referrers() {
-					iff, isIf := r2.(*ssa.If)
-					if !isIf {
-						continue
-					}
-					thenB := iff.Block().Succs[0]
-					for _, ti := range thenB.Instrs {
-						if ec, ok2 := ti.(*ssa.Call); ok2 {
-							if ecal := ec.Common().StaticCallee(); ecal != nil && ecal.String() == "os.Exit" {
-								if k, isC := ec.Common().Args[0].(*ssa.Const); isC && k.Value != nil && constant.Sign(k.Value) != 0 {
-									ok = true
-								} else {
-									detail = "os.Exit is called with status 0 or a non-constant"
-								}
-							}
-						}
-					}
-				}
+			}
+			return false
+		}
+		type exitNow struct{}
+		ev.Extern["os.Exit"] = func(ev *eval.Evaluator, pos token.Pos, recv eval.Value, a []eval.Value) eval.Value {
+			exited = true
+			status, _ = linConst(a[0])
+			panic(exitNow{})
+		}
+		okWrite := func(ev *eval.Evaluator, pos token.Pos, recv eval.Value, a []eval.Value) eval.Value {
+			return eval.Tuple{eval.K(0), eval.Nil{}}
+		}
+		for _, name := range []string{"fmt.Println", "fmt.Printf", "fmt.Print", "fmt.Fprintln", "fmt.Fprintf", "fmt.Fprint", "(*os.File).WriteString", "io.WriteString"} {
+			ev.Extern[name] = okWrite
+		}
+		ev.Extern["(error).Error"] = func(ev *eval.Evaluator, pos token.Pos, recv eval.Value, a []eval.Value) eval.Value {
+			return eval.S("error")
+		}
+		for _, name := range []string{"Stdin", "Stdout", "Stderr"} {
+			if v := lookupPkgVar(c, "os", name); v != nil {
+				ev.SetGlobal(v, eval.Opaque{Why: "os." + name})
 			}
 		}
+		func() {
+			defer func() {
+				if r := recover(); r != nil {
+					if _, ok := r.(exitNow); !ok {
+						panic(r)
+					}
+				}
+			}()
+			_, err = ev.CallFunc(fn)
+		}()
+		return
 	}
-	c.Ob(key, ok, f.Pos(), "%s", detail)
+	exN, stN, errN := run(nil)
+	if errN != nil {
+		c.Und(key, fn.Pos(), "cannot evaluate cmd.Execute: %v", errN)
+		return
+	}
+	var bad []string
+	if exN && stN != 0 {
+		bad = append(bad, fmt.Sprintf("the command returns nil, yet os.Exit(%d) is called", stN))
+	}
+	// every kind of failure exits non-zero: an ordinary error, and the errors a failed write surfaces as
+	// (closed pipe, full device, generic I/O error)
+	for _, f := range []struct {
+		what string
+		e    eval.Value
+	}{{"an ordinary error", eval.ErrVal{Msg: eval.S("the command failed")}},
+		{"a write to a closed pipe (syscall.EPIPE)", eval.ErrVal{Msg: eval.S("broken pipe"), Concrete: eval.K(int64(syscall.EPIPE))}},
+		{"a full device (syscall.ENOSPC)", eval.ErrVal{Msg: eval.S("no space left on device"), Concrete: eval.K(int64(syscall.ENOSPC))}},
+		{"an I/O error (syscall.EIO)", eval.ErrVal{Msg: eval.S("input/output error"), Concrete: eval.K(int64(syscall.EIO))}},
+		{"io.ErrShortWrite", eval.ErrVal{Msg: eval.SSym("io.ErrShortWrite")}},
+		{"io.ErrClosedPipe", eval.ErrVal{Msg: eval.SSym("io.ErrClosedPipe")}}} {
+		ex, st, err := run(f.e)
+		if err != nil {
+			c.Und(key, fn.Pos(), "cannot evaluate cmd.Execute when the command returns %s: %v", f.what, err)
+			return
+		}
+		if !ex || st == 0 {
+			bad = append(bad, fmt.Sprintf("the command returns %s: os.Exit called=%v status=%d (want a non-zero status)", f.what, ex, st))
+		}
+	}
+	c.Ob(key, len(bad) == 0, fn.Pos(), "%s", first(bad, 3))
 }
 
 // errAliases: the values a write's error result can be read through (phis, local variables).
